@@ -87,6 +87,7 @@ func VerifC06TxManager() {
 		result   bool
 	}
 	ops := make([][]opRec, peers)
+	tStart := verifClock() // no request is older than this
 	var wg sync.WaitGroup
 	for p := 0; p < peers; p++ {
 		for s := 0; s < slots; s++ {
@@ -110,7 +111,8 @@ func VerifC06TxManager() {
 		}(p)
 	}
 	wg.Wait()
-	verifQuiesce() // the Run loop drains what was delivered before the retry polls start
+	tEnd := verifClock() // no request is younger than this
+	verifSettle() // the Run loop drains what was delivered before the retry polls start (no virtual time passes)
 
 	delivered := []bool{false, false}
 	announcedBy := [][]bool{make([]bool, peers), make([]bool, peers)}
@@ -148,6 +150,14 @@ func VerifC06TxManager() {
 			verifAssume(false) // not reproducible with a real clock: the native run stops here
 		}
 		verifAdvanceClock(int64(timeout) - 1)
+	}
+	// under the virtual clock the window is exact; natively it is measured, and a run whose real
+	// timing falls between "surely inside" and "surely passed" is not judged
+	now := verifClock()
+	surelyInside := now-tStart < int64(timeout)
+	surelyPassed := now-tEnd >= int64(timeout)
+	if expired != surelyPassed || expired == surelyInside {
+		verifAssume(false)
 	}
 	// retry polls by every peer, in a chosen order
 	first := pick("poll-first", peers)
